@@ -12,6 +12,7 @@ The evaluator never imports or runs kawin: it walks the ast of the function unde
 """
 from __future__ import annotations
 import ast
+from . import astutil as U
 import operator
 
 SAT = 3         # integers saturate here: sound as long as they are only compared with constants below SAT (checked)
@@ -300,10 +301,10 @@ class Evaluator:
             if not broke:
                 self.run(s.orelse)
         elif isinstance(s, ast.Expr):
-            if isinstance(s.value, ast.Constant):
+            if isinstance(s.value, ast.Constant) or U.is_inert_output(s):
                 return
             self.ev(s.value)
-        elif isinstance(s, (ast.Pass, ast.Assert)):
+        elif isinstance(s, (ast.Pass, ast.Assert, ast.Import, ast.ImportFrom)) or U.is_inert_output(s):
             return          # normal-path semantics: a failing assertion ends the evaluation with an exception, it changes no value
         elif isinstance(s, ast.Break):
             raise _Break()
